@@ -32,6 +32,12 @@ Transcribed (snapshot ef0888e + the `fix:` commits listed in findings/C06.txt):
   ExecutionState is per `CopyReset` copy = per group since `fix:` 8ed14ac; `whereNestedNodeShared` /
   `evalNestedNodeShared` = one per node, the code before the fix); `alert().crit(lambda: nl)` with a nested lambda is
   `alertNode` (it was exactly `alertNodeShared`).
+* STAGES THAT REBUILD A POINT'S GROUP IDENTITY behind a groupBy, stream side (`Stage`, `Stage.apply`): `DeleteNode.Point`
+  (delete.go: `doDeletes` on the tags; `checkForDeletedDimension`; `deleteDimensions` = the surviving tag names with
+  `ByName: dims.ByName` carried over; `SetTags` / `SetDimensions` recompute the id from the point's own name / tags /
+  dimensions), a further `GroupByNode.Point` with named dimensions (`dims.ByName = dims.ByName || n.byName`),
+  `DefaultNode.Point` for one tag (`setDefaults`: only when the tag reads as ""), `EvalNode` with `.tags(t)` (`SetTags`).
+  `deleteDimensionsNoFlag` = the same without the carried flag, for the counterexample theorem only.
 Abstracted: everything about a message except group id / time / the field `v` / name / tags; errors are
 "log and drop"; unbuffered batches inside the concrete receivers (the generic demultiplexer does model them; the
 batch-side receivers take whole buffered batches).
@@ -106,6 +112,66 @@ def determineTagNamesOld (dims excluded : List String) : List String :=
 /-- `computeTagNames`. -/
 def computeTagNames (tags : Tags) (allDimensions : Bool) (tagNames excluded : List String) : List String :=
   if allDimensions then filterExcluded (sortStrings (tags.map (·.1))) excluded else tagNames
+
+/-! ## Stateless stages behind a groupBy that rebuild a point's group identity (stream side) -/
+
+/-- A point message as grouping sees it: its measurement, its tags, and the grouping it carries
+(`models.Dimensions{ByName, TagNames}`). -/
+structure GPoint where
+  byName : Bool
+  name : String
+  tags : Tags
+  dims : List String
+deriving Repr, Inhabited
+
+/-- `DeleteNode.doDeletes` on the tags: `delete(newTags, tag)` for every configured tag. -/
+def deleteTags (del : List String) (tags : Tags) : Tags := tags.filter (fun kv => !del.contains kv.1)
+
+/-- `DeleteNode.checkForDeletedDimension`: is one of the group-by dimensions deleted? -/
+def checkForDeletedDimension (del dims : List String) : Bool := dims.any (fun d => del.contains d)
+
+/-- `DeleteNode.deleteDimensions`: `Dimensions{TagNames: <the dimensions not deleted>, ByName: dims.ByName}`. -/
+def deleteDimensions (del : List String) (byName : Bool) (dims : List String) : Bool × List String :=
+  (byName, dims.filter (fun d => !del.contains d))
+
+/-- NOT the code: `deleteDimensions` building `Dimensions{TagNames: …}` without the by-name flag (counterexample only). -/
+def deleteDimensionsNoFlag (del : List String) (_byName : Bool) (dims : List String) : Bool × List String :=
+  (false, dims.filter (fun d => !del.contains d))
+
+/-- `newTags[k] = v` on a Go map. -/
+def setTag (tags : Tags) (k v : String) : Tags :=
+  if tags.any (fun kv => kv.1 == k) then tags.map (fun kv => if kv.1 == k then (k, v) else kv) else tags ++ [(k, v)]
+
+/-- The stateless nodes that rewrite what a point's group id is computed from. -/
+inductive Stage where
+  /-- `|delete().tag(t₁).tag(t₂)…` -/
+  | delete (tags : List String)
+  /-- a further `|groupBy(named dimensions)[.byMeasurement()]` -/
+  | groupBy (byName : Bool) (dims : List String)
+  /-- `|default().tag(k, v)` -/
+  | defaultTag (k v : String)
+  /-- `|eval(lambda: <string v>).as(k).tags(k).keep()` -/
+  | evalTag (k v : String)
+deriving Repr, Inhabited
+
+/-- `DeleteNode.Point` with the dimension function as a parameter (`deleteDimensions` in the code). -/
+def deletePointWith (dd : List String → Bool → List String → Bool × List String) (del : List String) (p : GPoint) : GPoint :=
+  let tags := deleteTags del p.tags          -- p.SetTags(tags)
+  if checkForDeletedDimension del p.dims then
+    let d := dd del p.byName p.dims          -- p.SetDimensions(n.deleteDimensions(dims))
+    { p with tags := tags, byName := d.1, dims := d.2 }
+  else { p with tags := tags }
+
+/-- What the stage makes of a point (the id it leaves with is `toGroupID` of the result: every setter of
+`edge.pointMessage` recomputes `groupID` from the message's own name / tags / dimensions). -/
+def Stage.apply : Stage → GPoint → GPoint
+  | .delete del, p => deletePointWith deleteDimensions del p
+  | .groupBy b dims, p =>
+    { p with byName := p.byName || b, dims := computeTagNames p.tags false (determineTagNames dims []) [] }
+  | .defaultTag k v, p => if tagVal p.tags k == "" then { p with tags := setTag p.tags k v } else p
+  | .evalTag k v, p => { p with tags := setTag p.tags k v }
+
+def applyStages (sts : List Stage) (p : GPoint) : GPoint := sts.foldl (fun q st => st.apply q) p
 
 /-! ## groupedConsumer as a demultiplexer over an arbitrary grouped receiver -/
 
